@@ -42,15 +42,16 @@ VARIABLES run,         \* "connecting" | "up" | "stopped"
           phases,      \* shutdown phases reached during the last step
           saved,       \* what the last save wrote: [tip, utx]
           locTop,      \* height named first in the last block locator the node sent
+          fed,         \* a client thread is blocked in Node.HandleTx on the full unconfirmed-tx channel
           steps, act
-vars == <<run, epoch, hs, ann, done, sync, ntx, gate, pend, emitted, stopReq, stopRet, phases, saved, locTop, steps, act>>
+vars == <<run, epoch, hs, ann, done, sync, ntx, gate, pend, emitted, stopReq, stopRet, phases, saved, locTop, fed, steps, act>>
 
 A(a, n, k) == [a |-> a, n |-> n, k |-> k]
 Head3 == <<"stopping", "incomingStopped", "channelsClosed">>
 Tail3(last) == <<"processingStopped", "saved", last>>
 
 Init == /\ run = "connecting" /\ epoch = 0 /\ hs = FALSE /\ ann = 0 /\ done = 0 /\ sync = "no" /\ ntx = 0
-        /\ gate = "none" /\ pend = "" /\ emitted = 0 /\ stopReq = FALSE /\ stopRet = FALSE /\ phases = <<>>
+        /\ fed = FALSE /\ gate = "none" /\ pend = "" /\ emitted = 0 /\ stopReq = FALSE /\ stopRet = FALSE /\ phases = <<>>
         /\ saved = [tip |-> 0, utx |-> 0] /\ locTop = -1 /\ steps = 0 /\ act = A("init", 0, "")
 
 Step == steps < MaxSteps /\ steps' = steps + 1 /\ run # "stopped"
@@ -58,12 +59,12 @@ Step == steps < MaxSteps /\ steps' = steps + 1 /\ run # "stopped"
 Accept ==
   /\ Step /\ run = "connecting" /\ pend = "" /\ epoch < MaxEpoch /\ ~stopReq
   /\ run' = "up" /\ epoch' = epoch + 1 /\ hs' = FALSE /\ ann' = done /\ sync' = "no" /\ phases' = <<>>
-  /\ act' = A("Accept", 0, "") /\ UNCHANGED <<done, ntx, gate, pend, emitted, stopReq, stopRet, saved, locTop>>
+  /\ act' = A("Accept", 0, "") /\ UNCHANGED <<done, ntx, gate, pend, emitted, stopReq, stopRet, saved, locTop, fed>>
 
 Version ==          \* the node answers with verack and asks for headers after its stored tip
   /\ Step /\ run = "up" /\ ~hs /\ pend = ""
   /\ hs' = TRUE /\ locTop' = done /\ phases' = <<>>
-  /\ act' = A("Version", 0, "") /\ UNCHANGED <<run, epoch, ann, done, sync, ntx, gate, pend, emitted, stopReq, stopRet, saved>>
+  /\ act' = A("Version", 0, "") /\ UNCHANGED <<run, epoch, ann, done, sync, ntx, gate, pend, emitted, stopReq, stopRet, saved, fed>>
 
 Headers(n) ==
   /\ Step /\ run = "up" /\ hs /\ pend = "" /\ ann + n <= NB
@@ -73,7 +74,7 @@ Headers(n) ==
           /\ sync' = IF sync = "yes" THEN sync
                      ELSE IF (ann = done /\ gate = "none") \/ (ann = done + 1 /\ gate = "held") THEN "yes" ELSE "pending"
   /\ phases' = <<>>
-  /\ act' = A("Headers", n, "") /\ UNCHANGED <<run, epoch, hs, done, ntx, gate, pend, emitted, stopReq, stopRet, saved, locTop>>
+  /\ act' = A("Headers", n, "") /\ UNCHANGED <<run, epoch, hs, done, ntx, gate, pend, emitted, stopReq, stopRet, saved, locTop, fed>>
 
 \* the effect of one processed block
 Processed(d) == [done |-> d + 1, sync |-> IF sync = "pending" /\ d + 1 = ann THEN "yes" ELSE sync]
@@ -83,19 +84,21 @@ Block(g) ==
   /\ IF g = "gate" THEN gate' = "held" /\ UNCHANGED <<done, sync>>
      ELSE /\ UNCHANGED gate /\ done' = Processed(done).done /\ sync' = Processed(done).sync
   /\ phases' = <<>>
-  /\ act' = A("Block", 0, g) /\ UNCHANGED <<run, epoch, hs, ann, ntx, pend, emitted, stopReq, stopRet, saved, locTop>>
+  /\ act' = A("Block", 0, g) /\ UNCHANGED <<run, epoch, hs, ann, ntx, pend, emitted, stopReq, stopRet, saved, locTop, fed>>
 
 Tx ==
   /\ Step /\ run = "up" /\ hs /\ pend = "" /\ sync = "yes" /\ ntx < MaxTx
   /\ gate = "none"               \* (while a block is held the consumer waits for the transaction repository)
   /\ ntx' = ntx + 1 /\ phases' = <<>>
-  /\ act' = A("Tx", 0, "") /\ UNCHANGED <<run, epoch, hs, ann, done, sync, gate, pend, emitted, stopReq, stopRet, saved, locTop>>
+  /\ act' = A("Tx", 0, "") /\ UNCHANGED <<run, epoch, hs, ann, done, sync, gate, pend, emitted, stopReq, stopRet, saved, locTop, fed>>
 
 \* The shutdown of a connection: requested by Stop (last = "stopped") or by the loss of the connection (last = "restarting").
 \* While a call-back is held inside ProcessBlock the processing goroutines cannot finish: the shutdown waits after closing
 \* the channels - or, when the node is in sync, already for the incoming goroutines if the safe-delay checker (an incoming
 \* goroutine) is waiting for the transaction repository that ProcessBlock has locked.
-HeldHead == IF sync = "yes" THEN {1, 3} ELSE {3}
+\* With a client thread blocked in Node.HandleTx on the full unconfirmed-tx channel (Feed), closing that channel has to wait for
+\* the blocked add (handlers/transaction.go TxChannel.Add holds the channel's lock): the shutdown stops one phase earlier.
+HeldHead == IF fed THEN (IF sync = "yes" THEN {1, 2} ELSE {2}) ELSE IF sync = "yes" THEN {1, 3} ELSE {3}
 Close(k) ==
   /\ Step /\ run = "up" /\ pend = ""
   /\ hs' = FALSE
@@ -103,7 +106,7 @@ Close(k) ==
      THEN /\ pend' = "restart" /\ (\E m \in HeldHead : phases' = SubSeq(Head3, 1, m) /\ emitted' = m) /\ UNCHANGED <<saved, sync>>
      ELSE /\ phases' = Head3 \o Tail3("restarting") /\ saved' = [tip |-> done, utx |-> ntx] /\ sync' = "no" /\ UNCHANGED <<pend, emitted>>
   /\ run' = "connecting"        \* no connection (a node waiting for a held call-back dials only after it has restarted)
-  /\ act' = A("Close", 0, k) /\ UNCHANGED <<epoch, ann, done, ntx, gate, stopReq, stopRet, locTop>>
+  /\ act' = A("Close", 0, k) /\ UNCHANGED <<epoch, ann, done, ntx, gate, stopReq, stopRet, locTop, fed>>
 
 Stop ==
   /\ Step /\ ~stopReq /\ stopReq' = TRUE
@@ -114,7 +117,15 @@ Stop ==
      ELSE IF run = "connecting" THEN /\ run' = "stopped" /\ stopRet' = TRUE /\ phases' = <<"stopped">> /\ UNCHANGED <<pend, emitted, saved>>
      ELSE /\ run' = "stopped" /\ stopRet' = TRUE /\ phases' = Head3 \o Tail3("stopped")
           /\ saved' = [tip |-> done, utx |-> ntx] /\ UNCHANGED <<pend, emitted>>
-  /\ act' = A("Stop", 0, "") /\ UNCHANGED <<epoch, hs, ann, done, sync, ntx, gate, locTop>>
+  /\ act' = A("Stop", 0, "") /\ UNCHANGED <<epoch, hs, ann, done, sync, ntx, gate, locTop, fed>>
+
+\* While a call-back is held the application keeps submitting transactions from a thread of its own (Node.HandleTx): the consumer
+\* is waiting for the transaction repository, the channel (100 deep) fills up and the submitting call blocks.  The transactions do
+\* not match the filters: nothing else changes.  What the application is entitled to: its call returns (accepted or refused),
+\* it never panics, and Stop still returns once the call-back is released.
+Feed ==
+  /\ Step /\ run = "up" /\ hs /\ gate = "held" /\ pend = "" /\ ~fed /\ fed' = TRUE /\ phases' = <<>>
+  /\ act' = A("Feed", 0, "") /\ UNCHANGED <<run, epoch, hs, ann, done, sync, ntx, gate, pend, emitted, stopReq, stopRet, saved, locTop>>
 
 Release ==          \* the held call-back returns: the block is completed, a waiting shutdown proceeds
   /\ Step /\ gate = "held"
@@ -125,10 +136,11 @@ Release ==          \* the held call-back returns: the block is completed, a wai
           /\ saved' = [tip |-> done + 1, utx |-> ntx]
           /\ IF pend = "stop" THEN run' = "stopped" /\ stopRet' = TRUE /\ phases' = SubSeq(Head3, emitted + 1, 3) \o Tail3("stopped")
              ELSE run' = "connecting" /\ phases' = SubSeq(Head3, emitted + 1, 3) \o Tail3("restarting") /\ UNCHANGED stopRet
+  /\ fed' = FALSE
   /\ act' = A("Release", 0, "") /\ UNCHANGED <<epoch, hs, ann, ntx, stopReq, locTop>>
 
 Next == Accept \/ Version \/ (\E n \in 0..2 : Headers(n)) \/ (\E g \in {"", "gate"} : Block(g)) \/ Tx
-        \/ (\E k \in {"fin", "rst"} : Close(k)) \/ Stop \/ Release
+        \/ (\E k \in {"fin", "rst"} : Close(k)) \/ Stop \/ Release \/ Feed
 Spec == Init /\ [][Next]_vars
 
 -----------------------------------------------------------------------------
